@@ -591,6 +591,23 @@ func runC11(c *Ctx) {
 				okRem = true
 			}
 		})
+		// ... and its stale watch is dropped: fsnotify keeps the path of a directory that was
+		// renamed away; a later Add of the same path would reuse that entry and report the new
+		// directory's events under a wrong name (which its own filter then discards)
+		okUnwatch := false
+		for _, call := range ir.Calls(up) {
+			if f := call.Common().StaticCallee(); f != nil && f.String() == "(*github.com/fsnotify/fsnotify.Watcher).Remove" {
+				if normExpr(up, []string{c.exprDesc(call.Common().Args[1])})[0] == "elem($2)" {
+					okUnwatch = true
+					for _, g := range normExpr(up, c.exprGuardsOf(up, call.(ssa.Instruction))) {
+						if g != "loop($2)" && g != "$0.watcher != nil" && !strings.HasPrefix(g, "loopdone(") {
+							okUnwatch = false
+						}
+					}
+				}
+			}
+		}
+		r.Check("C11.5", "removed-unwatched", okUnwatch, c.U.Pos(up.Pos()), "for every directory reported as removed the watch on its path is dropped before it may be added again")
 		r.Check("C11.5", "removed-untracked", okRem, c.U.Pos(up.Pos()), "a removed directory becomes untracked again (so that it is re-added when it reappears)")
 	}
 	if su := c.fn("C11.5", "cdi", "(*watch).setup"); su != nil {
@@ -682,6 +699,54 @@ func addReportsChange(c *Ctx) (ok, found bool, pos string) {
 			}
 		})
 		if n == 0 {
+			ok = false
+		}
+	}
+	return ok && found, found, pos
+}
+
+// dirErrorCleared: in (*watch).update every path from the success edge of watcher.Add to the
+// next iteration or a return deletes the directory's entry from the dirErrors parameter.
+func dirErrorCleared(c *Ctx) (ok, found bool, pos string) {
+	up := c.U.Func("cdi", "(*watch).update")
+	if up == nil || len(up.Params) < 2 {
+		return false, false, ""
+	}
+	var add ssa.CallInstruction
+	for _, call := range ir.Calls(up) {
+		if f := call.Common().StaticCallee(); f != nil && f.String() == "(*github.com/fsnotify/fsnotify.Watcher).Add" {
+			add = call
+		}
+	}
+	if add == nil {
+		return false, false, c.U.Pos(up.Pos())
+	}
+	isClear := func(in ssa.Instruction) bool {
+		call, ok := in.(*ssa.Call)
+		if !ok || ir.BuiltinName(call) != "delete" || len(call.Call.Args) != 2 {
+			return false
+		}
+		return call.Call.Args[0] == ssa.Value(up.Params[1]) && call.Call.Args[1] == add.Common().Args[1]
+	}
+	ok = true
+	for _, iff := range ir.Ifs(up) {
+		tv, nilSucc, isTest := ir.NilTest(iff)
+		if !isTest || tv != add.Value() {
+			continue
+		}
+		found = true
+		pos = c.pos(iff)
+		e := ir.Edge{From: iff.Block(), Succ: nilSucc}
+		hdr := iff.Block()
+		for _, l := range ir.Loops(up) {
+			if l.BodyBlocks()[iff.Block()] {
+				hdr = l.Header
+			}
+		}
+		if ir.CanReach(up, ir.PathQuery{FromEdge: &e, ToAny: func(in ssa.Instruction) bool {
+			_, isRet := in.(*ssa.Return)
+			return isRet || in.Block() == hdr
+		}, Stop: isClear}) {
 			ok = false
 		}
 	}
